@@ -287,3 +287,29 @@ def cyclic_history(rng):
   for _ in range(rng.randint(1, 4)):
     hist.append([['UpdateRecord', 'T', rng.randint(1, n), {'A': rng.randint(0, 3)}]])
   return hist
+
+
+def shape_tour():
+  """A fixed document with one formula column per dependency shape the property names, and a few edits of each kind;
+  replayed under the dependency monitor on every run so that no shape has zero coverage."""
+  cols = [{'id': 'A', 'type': 'Int', 'isFormula': False}, {'id': 'B', 'type': 'Int', 'isFormula': False},
+          {'id': 'R', 'type': 'Ref:T', 'isFormula': False}, {'id': 'L', 'type': 'RefList:T', 'isFormula': False},
+          {'id': 'C', 'type': 'ChoiceList', 'isFormula': False}]
+  forms = ['$A + 1', '$R.A', '$R.R.B', 'list($L.A)', '[x.R.A for x in $L]', 'len($L)',
+           'len(T.lookupRecords(A=$B))', 'T.lookupOne(A=$B).B', '[r.id for r in T.lookupRecords(C=CONTAINS("x"))]',
+           '[r.id for r in T.lookupRecords(A=$A, order_by="-B")]', '[r.id for r in T.lookupRecords(A=$A, B=$B)]',
+           'len(T.all)', 'PREVIOUS(rec, order_by="B").id', 'NEXT(rec, group_by="A", order_by="B").id',
+           'RANK(rec, order_by="B", order="desc")', 'list(T.lookupRecords(A=$A).L)', 'T.lookupOne(B=$A, sort_by="-A").R.A']
+  hist = [[['AddTable', 'T', cols]]]
+  for i, f in enumerate(forms):
+    hist.append([['AddColumn', 'T', 'S%d' % i, {'type': 'Any', 'isFormula': True, 'formula': f}]])
+  hist.append([['BulkAddRecord', 'T', [None] * 4, {'A': [1, 2, 1, 0], 'B': [2, 1, 1, 2], 'R': [2, 3, 0, 1],
+                                                  'L': [['L', 2, 3], None, ['L', 1], ['L', 4, 1]],
+                                                  'C': [['L', 'x'], ['L', 'y'], None, ['L', 'x', 'y']]}]])
+  hist.append([['CreateViewSection', 1, 0, 'record', [2], None]])
+  hist.append([['AddColumn', 'T_summary_A', 'tot', {'type': 'Any', 'isFormula': True, 'formula': 'SUM($group.B)'}]])
+  hist.append([['AddColumn', 'T_summary_A', 'refs', {'type': 'Any', 'isFormula': True, 'formula': 'list($group.L)'}]])
+  hist += [[['UpdateRecord', 'T', 1, {'A': 2}]], [['UpdateRecord', 'T', 2, {'R': 1, 'L': ['L', 4]}]],
+           [['UpdateRecord', 'T', 3, {'B': 5, 'C': ['L', 'x']}]], [['AddRecord', 'T', None, {'A': 1, 'B': 0, 'R': 5}]],
+           [['RemoveRecord', 'T', 4]], [['ModifyColumn', 'T', 'B', {'type': 'Numeric'}]]]
+  return hist
